@@ -1,7 +1,8 @@
 """C12 - assert_constraints accepts exactly the feasible weights (A1-A4, W1)."""
 import ast
 
-from ..model import AnalysisError, dotted, norm_text, names_read
+from ..model import (AnalysisError, dotted, norm_text, names_read,
+                     const_value)
 from ..rules import asserts
 from ..rules import wiring
 from ..rules import stencil
@@ -85,6 +86,10 @@ def run(prog, res):
   n5 += stencil.check_stencils(prog, res, prog.function(
       'kronecker_factored_lattice_lib._assert_monotonicity_constraints'))
   res.floor('A5', 22)
+  _pwl_subject(prog, res)
+  _kfl_sign(prog, res)
+  res.floor('A6', 1)
+  res.floor('A7', 1)
   # W1: layers forward every kind
   for lq, tq, aliases in LAYERS:
     fn = prog.function(lq)
@@ -151,3 +156,115 @@ def _rtl(prog, res):
             'results are collected',
             'RTL.assert_constraints does not assert every lattice layer with '
             'the caller\'s eps')
+
+
+# ---------------------------------------------------------------------------
+def _pwl_subject(prog, res):
+  """A6: what PWLCalibration.assert_constraints hands to the assertion library
+  must be the keypoint outputs of the current weights.  Decided with the
+  must-depend / may-depend influence analysis: the `outputs=` argument may
+  not depend on presentation or imputation switches (split_outputs turns the
+  result of call() into a list, impute_missing replaces the output at a
+  keypoint equal to missing_input_value or makes call() raise without an
+  is_missing tensor) nor on the keypoint positions fixed at construction
+  (with learned interior keypoints the positions are weights and the
+  constructor values are stale)."""
+  from ..rules import influence as inf
+  fn = prog.function('pwl_calibration_layer.PWLCalibration.assert_constraints')
+  lib = prog.function('pwl_calibration_lib.assert_constraints')
+  res.analysed(fn, lib)
+  calls = wiring.calls_to(prog, fn, lib)
+  if not calls:
+    raise AnalysisError('PWLCalibration.assert_constraints no longer calls '
+                        'the library assertion')
+  kw = {k.arg: k.value for k in calls[0].keywords}
+  subj = kw.get('outputs', calls[0].args[0] if calls[0].args else None)
+  if subj is None:
+    raise AnalysisError('PWLCalibration.assert_constraints: outputs= missing')
+  tags = {
+      'self.split_outputs': 'split_outputs',
+      'self.impute_missing': 'impute_missing',
+      'self.missing_input_value': 'missing_input_value',
+      'self._missing_input_value_tensor': 'missing_input_value',
+      'self.missing_output': 'missing_output',
+      'self.input_keypoints': 'constructor keypoints',
+      'self.kernel': 'kernel',
+  }
+  env = {'self': inf.V(inf.UNK), 'eps': inf.V(inf.UNK)}
+  for k, t in tags.items():
+    env[k] = inf.V(inf.UNK, {t})
+  it = inf.Interp(prog, strict=False)
+  it.may = True
+  end = {}
+  # evaluate the statements before the library call, then the subject
+  stmts = []
+  for st in fn.node.body:
+    if any(x is calls[0] for x in ast.walk(st)):
+      break
+    stmts.append(st)
+  e2 = dict(env)
+  it._depth = 0
+  it._block(fn, stmts, e2, [])
+  v = inf._join(it.val(fn, subj, e2))
+  forbidden = {'split_outputs', 'impute_missing', 'missing_input_value',
+               'missing_output', 'constructor keypoints'}
+  bad = sorted(set(v.infl) & forbidden)
+  res.check('kernel' in v.infl and not bad, 'A6',
+            '%s|subject' % fn.qualname, fn.loc(calls[0]),
+            'the asserted outputs depend on the kernel and on no presentation '
+            '/ imputation switch',
+            'the tensor handed to pwl_calibration_lib.assert_constraints '
+            'depends on %s: with split_outputs it is a list (AttributeError), '
+            'with impute_missing the keypoint equal to missing_input_value is '
+            'never inspected (or call() raises), and with learned interior '
+            'keypoints the function is probed at the constructor positions, '
+            'not at its keypoints; use self.keypoints_outputs()' % (
+                ', '.join(bad) or 'no kernel'))
+
+
+def _kfl_sign(prog, res):
+  """A7: the KFL projection makes every factor non-negative whenever a
+  dimension is monotonic (the derivative along dimension i carries the sign of
+  all other factors); the assertion must check the same clause, otherwise
+  kernels with a negative factor - for which the function decreases along a
+  dimension declared increasing - pass."""
+  proj = prog.function(
+      'kronecker_factored_lattice_lib.finalize_weight_constraints')
+  asrt = prog.function(
+      'kronecker_factored_lattice_lib._assert_monotonicity_constraints')
+  res.analysed(proj, asrt)
+  enforces = any(
+      isinstance(c, ast.Call) and (prog.ext_name(proj.module, c.func) or ''
+                                   ).endswith('maximum') and len(c.args) == 2
+      and dotted(c.args[0]) == 'weights' and const_value(c.args[1], None) == 0
+      for c in ast.walk(proj.node))
+  if not enforces:
+    raise AnalysisError('KFL projection: tf.maximum(weights, 0) vanished')
+  checks = False
+  for c in ast.walk(asrt.node):
+    if isinstance(c, ast.Call) and (prog.ext_name(asrt.module, c.func) or ''
+                                    ) == 'tf.Assert' and c.args:
+      t = c.args[0]
+      if isinstance(t, ast.Compare) and isinstance(t.ops[0], ast.GtE):
+        src = t.left
+        # reduce_min(weights) >= -eps   (directly or through a local)
+        if isinstance(src, ast.Name):
+          nm = src.id
+          for st in ast.walk(asrt.node):
+            if isinstance(st, ast.Assign) and dotted(st.targets[0]) == nm:
+              src = st.value
+        if isinstance(src, ast.Call) and (prog.ext_name(
+            asrt.module, src.func) or '').endswith('reduce_min') and \
+            src.args and dotted(src.args[0]) in ('weights', 'kernel'):
+          # must be the raw kernel: before `weights` is re-bound to the
+          # direction-multiplied list
+          checks = True
+  res.check(checks, 'A7', '%s|non-negative-factors' % asrt.qualname,
+            asrt.loc(),
+            'the assertion checks reduce_min(weights) >= -eps like the '
+            'projection enforces maximum(weights, 0)',
+            'the projection clips every factor at 0 (tf.maximum(weights, 0)) '
+            'but the assertion only compares neighbouring keypoints of '
+            'sign(scale) * w: a kernel with a negative factor in another '
+            'dimension (dim0 = [0, 1], dim1 = [-1, -.5]) passes although the '
+            'function decreases along the increasing dimension')
